@@ -6,8 +6,12 @@ import (
 	"go/constant"
 	"go/token"
 	"go/types"
+	"regexp"
+	"strconv"
 	"strings"
 )
+
+var intLitRe = regexp.MustCompile(`[ (]\d+[ )]`)
 
 func mustConst(s string) constant.Value { return constant.MakeFromLiteral(s, token.INT, 0) }
 
@@ -24,6 +28,8 @@ type FuncResult struct {
 	Obligations []*Obligation
 	Unsupported []string
 	Decls       []string
+	HintsTried  int
+	HintsFailed int
 }
 
 // global returns the value of a package-level variable.
@@ -181,6 +187,20 @@ func (c *FnCtx) globalFacts(o *types.Var, t Term) []string {
 		st.Assume(eq(t.S, vt.S))
 	}()
 	gd.facts = st.hyps
+	// true instances of the int->uint32 bridge for the integer literals of the initializer
+	seen := map[string]bool{}
+	for _, h := range st.hyps {
+		for _, lit := range intLitRe.FindAllString(h, -1) {
+			lit = strings.TrimSpace(strings.Trim(lit, "() "))
+			if seen[lit] || len(lit) > 10 {
+				continue
+			}
+			seen[lit] = true
+			if n, err := strconv.ParseUint(lit, 10, 64); err == nil && n <= 0xffffffff && n > 1 {
+				gd.facts = append(gd.facts, fmt.Sprintf("(and (= (i2w32 %d) #x%08x) (= (w2i32 #x%08x) %d))", n, n, n, n))
+			}
+		}
+	}
 	gd.decls = append([]string(nil), c.decls[nd:]...)
 	return gd.facts
 }
@@ -258,12 +278,53 @@ func (e *Engine) VerifyLemma(key string) *FuncResult {
 	return res
 }
 
-// VerifyFunc generates all obligations of one function under contract.
+// HintSolver is set by the commands: it discharges hint obligations between the two passes.
+var HintSolver func(obls []*Obligation)
+
+// VerifyFunc generates all obligations of one function under contract. Functions with proof hints are
+// executed twice: the first pass generates the hints (never assumed) and solves them, the second pass
+// assumes exactly the hint instances that were proved.
 func (e *Engine) VerifyFunc(key string) *FuncResult {
 	spec := e.Contracts.Funcs[key]
 	if spec != nil && spec.IsLemma {
 		return e.VerifyLemma(key)
 	}
+	hasHints := false
+	if spec != nil {
+		for _, a := range spec.Asserts {
+			if a.Hint {
+				hasHints = true
+			}
+		}
+	}
+	if !hasHints || HintSolver == nil {
+		return e.verifyFuncPass(key, 0, nil)
+	}
+	r1 := e.verifyFuncPass(key, 1, nil)
+	var hints []*Obligation
+	for _, o := range r1.Obligations {
+		if o.Kind == "hint" {
+			hints = append(hints, o)
+		}
+	}
+	HintSolver(hints)
+	proved := map[string]bool{}
+	failed := 0
+	for _, o := range hints {
+		if o.Status == "discharged" {
+			proved[o.HintKey] = true
+		} else {
+			failed++
+		}
+	}
+	r2 := e.verifyFuncPass(key, 2, proved)
+	r2.HintsTried = len(hints)
+	r2.HintsFailed = failed
+	return r2
+}
+
+func (e *Engine) verifyFuncPass(key string, pass int, proved map[string]bool) *FuncResult {
+	spec := e.Contracts.Funcs[key]
 	fi := e.Funcs[key]
 	res := &FuncResult{Key: key}
 	if spec != nil && spec.Trusted && !spec.Extern {
@@ -279,7 +340,7 @@ func (e *Engine) VerifyFunc(key string) *FuncResult {
 	}
 	res.File = shortPath(e.Fset.Position(fi.Decl.Pos()).Filename)
 	c := &FnCtx{eng: e, fi: fi, spec: spec, info: fi.Pkg.TypesInfo, loopOrd: map[ast.Stmt]int{}, callOrd: map[*ast.CallExpr]string{},
-		siteOrd: map[string]int{}, specNames: map[string]types.Object{}, safety: !spec.NoSafety}
+		siteOrd: map[string]int{}, specNames: map[string]types.Object{}, safety: !spec.NoSafety, hintPass: pass, provedHints: proved}
 	// loop ordinals in source order
 	n := 0
 	ast.Inspect(fi.Decl.Body, func(nd ast.Node) bool {
